@@ -15,7 +15,8 @@ Lemma emit_spec_cons d pos x xs : pos < length d ->
   emit_spec (upd d pos x) (S pos) xs = emit_spec d pos (x :: xs).
 Proof.
   intros H. unfold emit_spec. rewrite firstn_upd_S by lia. rewrite skipn_upd_gt by lia.
-  rewrite <- app_assoc. cbn [app length]. repeat f_equal; lia.
+  rewrite <- app_assoc. cbn [app length].
+  replace (pos + S (length xs)) with (S pos + length xs) by lia. reflexivity.
 Qed.
 
 Lemma get_upd_eq d i v : i < length d -> get (upd d i v) i = Some v.
@@ -40,12 +41,18 @@ Proof.
     rewrite IH by (rewrite upd_length; lia). rewrite emit_spec_cons by lia. reflexivity.
 Qed.
 
+Lemma set_none d : forall i v, length d <= i -> set d i v = None.
+Proof.
+  induction d as [|a t IH]; intros i v H; [reflexivity|].
+  destruct i as [|j]; cbn [length] in H; [lia|]. cbn [set]. rewrite IH by lia. reflexivity.
+Qed.
+
 Lemma emit_all_overrun : forall xs d pos, pos <= length d -> length d < pos + length xs ->
   emit_all xs d pos = UB OutOfBounds.
 Proof.
   induction xs as [|x t IH]; intros d pos H1 H2; cbn [length] in H2; [lia|].
   cbn [emit_all]. destruct (Nat.eq_dec pos (length d)) as [E|E].
-  - unfold oset. rewrite (proj2 (set_none_iff d pos x)) by lia. reflexivity.
+  - unfold oset. rewrite set_none by lia. reflexivity.
   - rewrite oset_upd by lia. cbn [rbind]. apply IH; rewrite upd_length by lia; lia.
 Qed.
 
@@ -129,10 +136,6 @@ Lemma fill_n_out_ok n v d pos : pos + Z.to_nat n <= length d ->
   fill_n_out n v d pos = Ok (emit_spec d pos (fill_n n v)).
 Proof. intros H. unfold fill_n_out, fill_n. apply fill_n_loop_ok. exact H. Qed.
 
-(* the values a state-machine generator yields *)
-Fixpoint gen_values {S : Type} (k : nat) (g : S -> A * S) (s : S) : list A :=
-  match k with O => [] | Datatypes.S k' => let '(v, s') := g s in v :: gen_values k' g s' end.
-
 Lemma gen_values_length {S : Type} (g : S -> A * S) : forall k s, length (gen_values k g s) = k.
 Proof. induction k as [|k IH]; intros s; cbn [gen_values]; [reflexivity|]. destruct (g s) as [v s']. cbn [length]. rewrite IH. reflexivity. Qed.
 
@@ -167,10 +170,99 @@ Qed.
 Lemma emit_spec_app d pos xs ys : pos + length xs + length ys <= length d ->
   emit_spec (fst (emit_spec d pos xs)) (snd (emit_spec d pos xs)) ys = emit_spec d pos (xs ++ ys).
 Proof.
-  intros H. rewrite <- (emit_all_ok xs d pos) by lia.
-  revert d pos H. induction xs as [|x t IH]; intros d pos H.
-  - cbn [emit_all fst snd app]. reflexivity.
-  - cbn [length] in H. cbn [emit_all]. rewrite oset_upd by lia. cbn [rbind].
-    cbn [app]. rewrite <- emit_spec_cons by lia. rewrite <- IH by (rewrite upd_length; lia).
-    rewrite emit_all_ok by (rewrite upd_length; lia). reflexivity.
+  intros H. unfold emit_spec. cbn [fst snd].
+  assert (HP : length (firstn pos d) = pos) by (rewrite firstn_length; lia).
+  rewrite (app_assoc (firstn pos d) xs).
+  assert (HL : length (firstn pos d ++ xs) = pos + length xs) by (rewrite app_length; lia).
+  rewrite firstn_app, HL, Nat.sub_diag. cbn [firstn]. rewrite app_nil_r.
+  rewrite firstn_all2 by lia.
+  rewrite skipn_app, HL.
+  rewrite (skipn_all2 (firstn pos d ++ xs)) by lia. cbn [app].
+  replace (pos + length xs + length ys - (pos + length xs)) with (length ys) by lia.
+  rewrite skipn_skipn. rewrite app_length.
+  replace (length ys + (pos + length xs)) with (pos + (length xs + length ys)) by lia.
+  rewrite <- !app_assoc. f_equal. lia.
 Qed.
+
+Lemma rotate_copy_out_ok src m d pos : m <= length src -> pos + length src <= length d ->
+  rotate_copy_out src m d pos = Ok (emit_spec d pos (rotate_copy src m)).
+Proof.
+  intros Hm H. unfold rotate_copy_out, rotate_copy.
+  rewrite copy_out_ok by (rewrite skipn_length; lia). cbn [rbind]. unfold copy.
+  assert (L1 : length (skipn m src) = length src - m) by apply skipn_length.
+  assert (L2 : length (firstn m src) = m) by (rewrite firstn_length; lia).
+  rewrite copy_out_ok.
+  - unfold copy. rewrite emit_spec_app by lia. reflexivity.
+  - unfold emit_spec. cbn [fst snd]. rewrite !app_length, !firstn_length, !skipn_length. lia.
+Qed.
+
+(* unique_copy: the loop compares with the element it wrote last, which it reads back from the destination *)
+Lemma unique_copy_loop_ok (eqv : A -> A -> bool) : forall t d pos w,
+  get d pos = Some w -> S pos + length (unique_copy_from eqv w t) <= length d ->
+  unique_copy_loop eqv t d pos = Ok (emit_spec d (S pos) (unique_copy_from eqv w t)).
+Proof.
+  induction t as [|x t IH]; intros d pos w Hw H.
+  - cbn [unique_copy_loop unique_copy_from]. rewrite emit_spec_nil. reflexivity.
+  - cbn [unique_copy_loop unique_copy_from] in *. rewrite (oget_some d pos w Hw). cbn [rbind].
+    destruct (negb (eqv w x)); cbn [length] in H.
+    + rewrite oset_upd by lia. cbn [rbind].
+      rewrite (IH (upd d (S pos) x) (S pos) x) by (rewrite ?upd_length by lia; try apply get_upd_eq; lia).
+      rewrite emit_spec_cons by lia. reflexivity.
+    + apply IH; assumption.
+Qed.
+
+Lemma unique_copy_out_ok (eqv : A -> A -> bool) src d pos :
+  pos + length (unique_copy eqv src) <= length d ->
+  unique_copy_out eqv src d pos = Ok (emit_spec d pos (unique_copy eqv src)).
+Proof.
+  destruct src as [|x t]; intros H.
+  - cbn [unique_copy_out unique_copy]. rewrite emit_spec_nil. reflexivity.
+  - cbn [unique_copy_out unique_copy length] in *. rewrite oset_upd by lia. cbn [rbind].
+    rewrite (unique_copy_loop_ok eqv t (upd d pos x) pos x) by (rewrite ?upd_length by lia; try apply get_upd_eq; lia).
+    rewrite emit_spec_cons by lia. reflexivity.
+Qed.
+
+Lemma partition_copy_out_ok (p : A -> bool) : forall src d1 p1 d2 p2,
+  p1 + length (filter p src) <= length d1 -> p2 + length (filter (fun x => negb (p x)) src) <= length d2 ->
+  partition_copy_out p src d1 p1 d2 p2
+  = Ok (emit_spec d1 p1 (fst (partition_copy p src)), emit_spec d2 p2 (snd (partition_copy p src))).
+Proof.
+  induction src as [|x t IH]; intros d1 p1 d2 p2 H1 H2.
+  - cbn [partition_copy_out partition_copy fst snd]. rewrite !emit_spec_nil. reflexivity.
+  - cbn [partition_copy_out partition_copy filter] in *.
+    destruct (partition_copy p t) as [a b] eqn:E. destruct (p x); cbn [negb length fst snd] in *.
+    + rewrite oset_upd by lia. cbn [rbind]. rewrite IH by (rewrite ?upd_length by lia; lia).
+      rewrite ?E. cbn [fst snd]. rewrite emit_spec_cons by lia. reflexivity.
+    + rewrite oset_upd by lia. cbn [rbind]. rewrite IH by (rewrite ?upd_length by lia; lia).
+      rewrite ?E. cbn [fst snd]. rewrite emit_spec_cons by lia. reflexivity.
+Qed.
+
+Lemma copy_backward_loop_ok : forall rs d pos, length rs <= pos -> pos <= length d ->
+  copy_backward_loop rs d pos = Ok (emit_backward_spec d pos (rev rs)).
+Proof.
+  induction rs as [|x t IH]; intros d pos H1 H2.
+  - cbn [copy_backward_loop rev]. unfold emit_backward_spec. cbn [length app]. rewrite Nat.sub_0_r, firstn_skipn. reflexivity.
+  - cbn [length] in H1. destruct pos as [|p]; [lia|]. cbn [copy_backward_loop].
+    rewrite oset_upd by lia. cbn [rbind]. rewrite IH by (rewrite ?upd_length by lia; lia).
+    unfold emit_backward_spec. rewrite rev_length. cbn [rev]. rewrite app_length, rev_length. cbn [length].
+    rewrite firstn_upd_le by lia. rewrite skipn_upd_eq by lia.
+    rewrite <- !app_assoc. cbn [app].
+    replace (S p - (length t + 1)) with (p - length t) by lia. reflexivity.
+Qed.
+
+Lemma copy_backward_out_ok src d dlast : length src <= dlast -> dlast <= length d ->
+  copy_backward_out src d dlast = Ok (emit_backward_spec d dlast (copy_backward src)).
+Proof.
+  intros H1 H2. unfold copy_backward_out, copy_backward.
+  rewrite copy_backward_loop_ok by (rewrite ?rev_length; lia). rewrite rev_involutive. reflexivity.
+Qed.
+
+Lemma copy_backward_out_underrun src d dlast : dlast < length src -> dlast <= length d ->
+  copy_backward_out src d dlast = UB OutOfBounds.
+Proof.
+  unfold copy_backward_out. rewrite <- (rev_length src). generalize (rev src) as rs. clear src.
+  intros rs. revert d dlast. induction rs as [|x t IH]; intros d dlast H1 H2; cbn [length] in H1; [lia|].
+  cbn [copy_backward_loop]. destruct dlast as [|p]; [reflexivity|].
+  rewrite oset_upd by lia. cbn [rbind]. apply IH; rewrite ?upd_length by lia; lia.
+Qed.
+End Out.
